@@ -4,7 +4,8 @@ open SMV.Driver
 /-- Line protocol:
   `<id> <feature> <def…>`          one definition: T1 dump + T2 tokens
   `INFO <id> <feature> <def…>`     machine facts for the harness generator
-  `SCN <id> <feature> <def…>` … op lines … `END`   a T3 scenario -/
+  `SCN <id> <feature> <def…>` … op lines … `END`   a T3 scenario
+  `NAME <ident>`                   to_snake_case / to_pascal_case of an identifier -/
 partial def loop (h : IO.FS.Stream) (out : IO.FS.Stream) (st : Option ScnState) : IO Unit := do
   let line ← h.getLine
   if line.isEmpty then return ()
@@ -27,6 +28,12 @@ partial def loop (h : IO.FS.Stream) (out : IO.FS.Stream) (st : Option ScnState) 
       loop h out (some s)
     | "CORE" :: _ =>
       for x in coreTable do out.putStrLn x
+      loop h out none
+    | ["NAME", n] =>
+      -- the two identifier conversions of codegen/utils.rs and the snake_case test of validation.rs
+      out.putStrLn (match SMV.Name.ofString? n with
+        | some nm => s!"#NAME {n}\t{(SMV.toSnake nm).toString}\t{(SMV.toPascal nm).toString}"
+        | none => s!"#NAME {n}\t<not in the alphabet>")
       loop h out none
     | "INFO" :: rest =>
       for x in infoOf rest do out.putStrLn x
